@@ -20,6 +20,10 @@ CHECKS = {
    technique="SMT equivalence (z3) of the translation of the same Python operand objects before and after each consuming operation, for all register values; SMT equivalence of pickled-and-restored objects",
    text="Bounded translation validation: for every (operand A, operand B, consuming operation) the denotation of the operand objects is proven unchanged for ALL register values (unsat), with size and sign flag compared; every pickled expression/mapper/memory map is proven equivalent to the original and compared by str/size/eq. Single consuming operation per operand; operand shapes from the enumerated family.",
    note="trusted: z3, vf/termsmt.T; known findings (sign flag of stored/base expressions rewritten by reg.eval and extract_offset) listed in known_findings.json"),
+ "C09": dict(level="translation_validation", engine="E1", design="DESIGN.md section 4 C09",
+   technique="SMT (z3 QF_ABV) equivalence between the real mapper's result for a load/store program (loaded values with their mods replayed, final memory) and a z3-Array byte-level execution, for all pointer/register/memory values",
+   text="Bounded translation validation: for every enumerated/seeded load-store program (<=6 accesses, 3 pointers, sizes 8..64, both endiannesses, 4 aliasing/memtrace settings) each loaded register and the final memory at a universally quantified address are proven equal to the byte-level reference for ALL pointer values - equal, overlapping or disjoint (array theory decides) - or a model is replayed as (concrete state >> map) on the real code.",
+   note="trusted: z3, vf/termsmt.T (mods replay, map entries as ordered stores); assumptions: no access wraps 2^64; with noaliasing the ranges of different pointers are disjoint; two known findings (big-endian stores lose their endianness in map entries; mixed-endian read of a stored value)"),
 }
 
 NA_REASON = "check not built yet (construction in progress)"
